@@ -114,6 +114,12 @@ class VN(Problem):
         if isinstance(e, ast.UnaryOp) and isinstance(e.op, ast.USub) and isinstance(e.operand, ast.Constant) \
                 and isinstance(e.operand.value, int):
             return ("const", repr(-e.operand.value))
+        if isinstance(e, ast.Subscript) and isinstance(e.value, ast.Name) and isinstance(e.slice, ast.Constant) \
+                and isinstance(e.slice.value, int) and not isinstance(e.slice.value, bool):
+            # component of a local that holds a tuple of values
+            tv = self.get(env, e.value.id)
+            if isinstance(tv, tuple) and tv and tv[0] == "tuple" and 0 <= e.slice.value < len(tv) - 1:
+                return tv[1 + e.slice.value]
         k = key_of(e)
         if k is not None:
             return self.get(env, k)
